@@ -514,3 +514,46 @@ def rule_raise_census(rep: Report, repo: Repo, rule: str) -> None:
                       + (f" (it tests listener state: `{on_state[0][:60]}`)" if on_state else "")
                       + ": a file that CMake accepts can be rejected", witness="a balanced file with a documented function after ct_add_test()")
     rep.ok(rule, f"{ci.module}:{lm.cls}", f"{n} raise statement(s) examined")
+
+
+# ----------------------------------------------------------------------
+# Arities (number of single arguments) with which a *documented* command of each kind is accepted today; confirmed against the
+# processors' argument checks and the property statements (name [params...], NAME <n>, <class> <name> [default], <name> <help>
+# [default]).  None = no upper bound.  A row table that accepts less is over-strict validation (entries vanish), one that accepts
+# more reaches index errors.
+ACCEPTED_ARITY = {
+    "function": (1, None), "macro": (1, None), "set": (1, None), "option": (2, 3),
+    "cpp_class": (1, None), "cpp_member": (2, None), "cpp_constructor": (2, None), "cpp_attr": (2, None),
+    "ct_add_test": (2, None), "ct_add_section": (2, None), "add_test": (2, None),
+}
+
+
+def rule_accepted_arities(rep: Report, repo: Repo, rule: str, kinds=None) -> None:
+    from .bindings import _len_interval
+    rep.rule(rule, "for every documented command kind, the argument counts that lead to an entry are exactly those of the table "
+                   "ACCEPTED_ARITY (checked for 0..8 arguments on the effect table)")
+    lm = model(repo)
+    n_checked = 0
+    for k, (lo_exp, hi_exp) in ACCEPTED_ARITY.items():
+        if kinds and k not in kinds:
+            continue
+        rows = lm.rows("DOC", k)
+        if not rows:
+            continue
+        acc = set()
+        for r in rows:
+            if r.error or "exc" in r.val or (r.outcome.exit and r.outcome.exit[0] == "raise"):
+                continue
+            lo, hi = _len_interval(r, lm)
+            acc |= {n for n in range(0, 9) if n >= lo and (hi is None or n <= hi)}
+        exp = {n for n in range(0, 9) if n >= lo_exp and (hi_exp is None or n <= hi_exp)}
+        n_checked += 1
+        missing, extra = sorted(exp - acc), sorted(acc - exp)
+        msg = ""
+        if missing:
+            msg = f"a documented {k}() with {missing} argument(s) no longer produces an entry (it is rejected or dropped)"
+        elif extra:
+            msg = f"a documented {k}() with {extra} argument(s) is accepted although it lacks a mandatory argument"
+        rep.check(not missing and not extra, rule, WHERE, f"{k}: accepted arities {sorted(acc)}", msg,
+                  witness=f"{k}() with {(missing or extra or [0])[0]} arguments")
+    rep.floor(rule, 2 if kinds else 8, "command kinds with an arity table")
